@@ -3,13 +3,26 @@ use crate::Table;
 pub mod calls;
 pub mod sched;
 pub mod c01;
+pub mod c02;
+pub mod c03;
 pub mod c06;
 pub mod c08;
 pub mod c09;
+pub mod arr;
+pub mod c10;
+pub mod c11;
+pub mod c14;
+pub mod c18;
 
 pub fn register(t: &mut Table) {
     c01::register(t);
+    c02::register(t);
+    c03::register(t);
     c06::register(t);
     c08::register(t);
     c09::register(t);
+    c10::register(t);
+    c11::register(t);
+    c14::register(t);
+    c18::register(t);
 }
